@@ -210,6 +210,21 @@ def replay_file(pid: str, path: str, tier: str) -> int:
     return 1 if reproduced else 0
 
 
+def _extraction_note(prog, q):
+    """for a function that is a mechanical extraction: the statements taken (verbatim, from the current source) and what was rewritten"""
+    if q not in getattr(prog, "synthetic", ()):
+        return {}
+    import ast as _ast
+    mod, name = q.split(":")
+    taken = prog.sources.get(mod + "$" + name, "")
+    fn = prog.funcs[q]
+    ret = _ast.unparse(fn.body[-1]) if fn.body else ""
+    return {"extracted": {"statements": taken[:3000], "parameters": [a.arg for a in fn.args.args], "appended": ret,
+                          "rewritten": "statements are deep copies of the current AST; a loop-body extraction turns this loop's continue/break into "
+                                       "return 'continue'/'break', returns the rebound locals named in `appended`, and turns `yield e` into "
+                                       "<list parameter>.append(e); everything of the host function outside these statements is dropped"}}
+
+
 def run(pid: str, tier: str, replay: str | None, t0: float) -> int:
     if pid not in PROPS:
         print(f"property {pid} has no check (see MANIFEST.json not_applicable)")
@@ -319,8 +334,9 @@ def run(pid: str, tier: str, replay: str | None, t0: float) -> int:
             "obligations": n_obl, "discharged": n_dis,
             "checker_cmd": f"./check {pid} --tier {tier}",
             "trusted_base": sorted(TRUSTED_BASE),
-            "functions_under_contract": [{"function": q, "source_sha256_16": recs[q]["source_sha"], "obligation_instances": recs[q]["instances"],
-                                          "vcgen_s": recs[q]["vcgen_s"], "solve_s": recs[q]["solve_s"], "from_cache": recs[q]["cached"]} for q in fns],
+            "functions_under_contract": [dict({"function": q, "source_sha256_16": recs[q]["source_sha"], "obligation_instances": recs[q]["instances"],
+                                               "vcgen_s": recs[q]["vcgen_s"], "solve_s": recs[q]["solve_s"], "from_cache": recs[q]["cached"]},
+                                              **_extraction_note(prog, q)) for q in fns],
             "obligations_by_backend": backends, "solver_time_s": round(solver_s, 2),
             "supporting_obligations_other_properties": {"total": len(support), "failing": [r["name"] for _q, r in failing_support]},
             "scans": [{"name": s.name, "ok": s.ok, "detail": s.detail[:400]} for s in scans],
